@@ -40,6 +40,10 @@ def make_jobs(seed, n, only_compute=False, tag="c01"):
                 thr.append(prog)
             j["threads"] = thr
         jobs.append(j)
+    if not only_compute:
+        import c11
+        for i in range(0, n, 12):
+            jobs[i] = c11.stale_reader_job(rng, "%s-%05d" % (tag, i))
     # a share of the jobs runs with real threads (no scheduler)
     for j in jobs[:: 10]:
         j["sched"] = {"kind": "os"}
